@@ -274,3 +274,86 @@ pub fn read_lines(path: &str) -> Vec<String> {
         .filter(|l| !l.is_empty() && !l.starts_with('#'))
         .collect()
 }
+
+/// The harness's own FEN writer (by projection; never the implementation's).
+pub fn fen_of(s: &State) -> String {
+    let mut out = String::new();
+    for r in (0..8).rev() {
+        let mut run = 0;
+        for f in 0..8 {
+            let sq = Square::try_from((r * 8 + f) as u8).unwrap();
+            let l = pi_letter(s.board().piece_at(sq));
+            if l == "." {
+                run += 1;
+            } else {
+                if run > 0 {
+                    out.push_str(&run.to_string());
+                    run = 0;
+                }
+                out.push_str(&l);
+            }
+        }
+        if run > 0 {
+            out.push_str(&run.to_string());
+        }
+        if r > 0 {
+            out.push('/');
+        }
+    }
+    out.push(' ');
+    out.push_str(color_letter(s.turn_to_move()));
+    out.push(' ');
+    let mut c = String::new();
+    if s.castle_rights(Color::White).kingside { c.push('K') }
+    if s.castle_rights(Color::White).queenside { c.push('Q') }
+    if s.castle_rights(Color::Black).kingside { c.push('k') }
+    if s.castle_rights(Color::Black).queenside { c.push('q') }
+    if c.is_empty() { c.push('-') }
+    out.push_str(&c);
+    out.push(' ');
+    match s.en_passant_target() {
+        None => out.push('-'),
+        Some(sq) => out.push_str(&sq_name(sq_num(sq))),
+    }
+    out.push_str(&format!(" {} {}", s.clock().halfmove_clock, s.clock().fullmove_number));
+    out
+}
+
+pub fn sq_name(n: u64) -> String {
+    let z = n - 1;
+    format!("{}{}", (b'a' + (z % 8) as u8) as char, (b'1' + (z / 8) as u8) as char)
+}
+
+/// Compact move string, same layout as Families!MvStr.
+pub fn mv_str(m: &Move) -> String {
+    format!(
+        "{}{}{}{}{}{}{}{}",
+        sq_name(sq_num(m.origin())),
+        sq_name(sq_num(m.destination())),
+        piece_letter(m.piece()),
+        kind_letter(m.capture()),
+        kind_letter(m.promotion()),
+        if m.is_en_passant() { "e" } else { "-" },
+        match m.castle_side() { Some(Side::King) => "K", Some(Side::Queen) => "Q", None => "." },
+        if m.is_double_pawn() { "d" } else { "-" }
+    )
+}
+
+/// Extracts the JSON payloads of TLC `<<"TAG", "...">>` print lines.
+pub fn tlc_payloads(path: &str, tag: &str) -> Vec<Value> {
+    let prefix = format!("<<\"{}\", \"", tag);
+    let text = std::fs::read_to_string(path).unwrap_or_else(|_| panic!("read {}", path));
+    let mut out = vec![];
+    for line in text.lines() {
+        if let Some(rest) = line.strip_prefix(&prefix) {
+            if let Some(body) = rest.strip_suffix("\">>") {
+                let un = body.replace("\\\"", "\"").replace("\\\\", "\\");
+                match serde_json::from_str::<Value>(&un) {
+                    Ok(v) => out.push(v),
+                    Err(e) => panic!("bad payload in {}: {}", path, e),
+                }
+            }
+        }
+    }
+    out
+}
